@@ -27,7 +27,7 @@ ASSUMPTIONS = [
     "contextlib.contextmanager semantics: an exception in the with-body is thrown in at the yield; generators are LIFO",
     "settings are plain instance attributes (vars(self)) as established by Settings.__init__",
 ]
-FLOORS = {"Y1": 1, "Y2": 1, "Y3": 2, "Y4": 3, "Y5": 8, "Y6": 2, "Y7": 2, "Y8": 3}
+FLOORS = {"Y1": 1, "Y2": 1, "Y3": 2, "Y4": 4, "Y5": 8, "Y6": 2, "Y7": 2, "Y8": 3}
 
 SPEC_SETTINGS = ["float_type", "decimals", "atol", "rtol", "alias", "logger", "factory_manager"]
 
@@ -137,6 +137,37 @@ def context_rules(check: Check) -> None:
             why = f"restored value is {show(val)}"
     check.require(good, "Y4", "Settings.context/restore-value",
                   "each restored value is snapshot[key] for the key being restored" if good else why, loc(fn, restores[0][0]))
+    # Y4b: which settings are applied/restored is decided by the arguments alone (named = not None), never by the current values
+    coll_names = set()
+    for n, _ in applies + restores:
+        for h_ in cfg.enclosing_loops(n):
+            for x in ast.walk(h_.ast.iter):  # type: ignore[union-attr]
+                if isinstance(x, ast.Name):
+                    coll_names.add(x.id)
+    snap_names = {t_.id for n in snaps for t_ in (n.ast.targets if isinstance(n.ast, ast.Assign) else [n.ast.target]) if isinstance(t_, ast.Name)}
+    offending = []
+    for n in cfg.stmt_nodes():
+        a = n.ast
+        if isinstance(a, (ast.Assign, ast.AnnAssign)) and a.value is not None:
+            tg = a.targets if isinstance(a, ast.Assign) else [a.target]
+            if any(isinstance(t_, ast.Name) and t_.id in coll_names for t_ in tg):
+                for comp in ast.walk(a.value):
+                    if isinstance(comp, (ast.DictComp, ast.ListComp, ast.SetComp, ast.GeneratorExp)):
+                        for g in comp.generators:
+                            for cond in g.ifs:
+                                names = {x.id for x in ast.walk(cond) if isinstance(x, ast.Name)}
+                                if names & (snap_names | {"self"}) or any(isinstance(x, ast.Call) and unparse(x.func) in ("vars", "getattr") for x in ast.walk(cond)):
+                                    offending.append((n, unparse(cond)))
+        for c_ in cfg.calls_in(n):
+            if isinstance(c_.func, ast.Attribute) and isinstance(c_.func.value, ast.Name) and c_.func.value.id in coll_names and c_.func.attr in ("pop", "popitem", "clear") \
+                    and not (isinstance(a, ast.Assign) and isinstance(a.targets[0], ast.Subscript)):
+                gs = [unparse(g) for g, pol, gn in cfg.must_guards(n)]
+                if any(sn in g_ for g_ in gs for sn in snap_names | {"self."}):
+                    offending.append((n, f"{unparse(c_)} under {gs}"))
+    check.require(not offending, "Y4", "Settings.context/named-keys",
+                  "the settings applied and restored are exactly the ones named in the call (selected without looking at current values)" if not offending else
+                  f"the set of settings to restore is filtered by their current values (`{offending[0][1][:80]}`): a named setting that already holds the requested "
+                  "value is not restored, so a direct assignment inside the context leaks out", loc(fn, offending[0][0] if offending else fn.node))
     keys_ok = all(t[2][1] != t[2][2] and t[2][1][0] in ("unpack", "elem") for _, t in applies)
     check.require(keys_ok, "Y4", "Settings.context/apply", "apply loop sets attribute `key` to `value` of each named setting",
                   loc(fn, applies[0][0]))
